@@ -1,7 +1,7 @@
 (* glue for the correspondence files Cases_C12_enc.v / Cases_C12_conf.v written by harness/c12 *)
 From Coq Require Import ZArith List Bool.
 From Coq Require Export Uint63.
-From FxV Require Import model.M_Abi model.M_CkDesc model.M_Confirm.
+From FxV Require Import model.M_Abi model.M_CkDesc model.M_Confirm gen.Gen_Checkpoint.
 Import ListNotations.
 Open Scope Z_scope.
 
@@ -106,3 +106,24 @@ Definition conf_mismatch (c : conf_case) : bool :=
   negb (Bool.eqb (is_accepted r) (cc_ok c))
   || negb (conf_set_eqb (st_conf st') (cc_after c))
   || rec_missing c.
+
+(* ---- transaction cases ---- *)
+
+Record tx_case := {
+  tc_st : cstate; tc_tx : txmsg; tc_signed_by : Z; tc_bytes : bool; tc_recs : list rec_entry;
+  tc_ok : bool; tc_after : list (ckey * cmsg)
+}.
+Definition mk_tx_case st (wrapped : bool) (wrapper : Z) m signed_by bytes recs ok after : tx_case :=
+  {| tc_st := st; tc_tx := if wrapped then TxWrapped wrapper m else TxDirect m; tc_signed_by := signed_by;
+     tc_bytes := bytes; tc_recs := recs; tc_ok := ok; tc_after := after |}.
+
+(* bytes = delivered inside a real block: the wrapped message is there only if MsgConfirm unpacks it;
+   otherwise the message object itself went through ValidateBasic / ante handler / router *)
+Definition tx_mismatch (c : tx_case) : bool :=
+  let unpacks := if tc_bytes c then msgconfirm_unpacks else true in
+  let r := tx_deliver (case_recover (tc_recs c)) unpacks msgconfirm_vb_compares_bridger (tc_st c) (tc_signed_by c) (tc_tx c) in
+  let conf' := match r with
+               | Accepted k => kv_set ckey_eqb k (tx_inner (tc_tx c)) (st_conf (tc_st c))
+               | Rejected _ => st_conf (tc_st c)
+               end in
+  negb (Bool.eqb (is_accepted r) (tc_ok c)) || negb (conf_set_eqb conf' (tc_after c)).
